@@ -6,6 +6,7 @@ import (
 	"fmt"
 	"net"
 	"net/http"
+	"os"
 	"path/filepath"
 	"strings"
 	"sync"
@@ -583,7 +584,7 @@ func c07Lane_(r *core.Run, agentBin string, md *fakes.Metadata, li int, ln c07La
 						json.Unmarshal(upo.Resp.Body, &om)
 						big := strings.Repeat("x", 1<<20)
 						var bwg sync.WaitGroup
-						for k := 0; k < 3; k++ {
+						for k := 0; k < 7; k++ {
 							var msgs []map[string]interface{}
 							for q := 0; q < 4; q++ {
 								msgs = append(msgs, map[string]interface{}{"id": om.ID, "msg": big})
@@ -592,7 +593,15 @@ func c07Lane_(r *core.Run, agentBin string, md *fakes.Metadata, li int, ln c07La
 							bwg.Add(1)
 							go func(k int, d []byte) {
 								defer bwg.Done()
-								shimCall(fmt.Sprintf("%s-burst%d", tag, k), "/shim/data", string(d))
+								t0 := time.Now()
+								up, ok := shimCall(fmt.Sprintf("%s-burst%d", tag, k), "/shim/data", string(d))
+								if os.Getenv("VERIF_DEBUG") != "" {
+									st := 0
+									if ok {
+										st = up.Resp.Status
+									}
+									fmt.Fprintf(os.Stderr, "DEBUG burst %s-%d: status %d after %v\n", tag, k, st, time.Since(t0))
+								}
 							}(k, d)
 							time.Sleep(30 * time.Millisecond)
 						}
